@@ -773,10 +773,7 @@ func (e *Engine) builtin(b *ssa.Builtin, args []Val) Val {
 		if ch.C == nil {
 			e.rtPanic("close of nil channel")
 		}
-		if ch.C.closed {
-			e.rtPanic("close of closed channel")
-		}
-		ch.C.closed = true
+		e.closeChan(ch.C)
 		return nil
 	case "print", "println":
 		return nil
